@@ -45,3 +45,41 @@ def check_taps(run, recs):
     if miss:
         run.inconc(f"taps missing: {sorted(miss)}")
         run.need("taps:" + ",".join(sorted(miss)))
+
+
+_SUPPORT = {}
+
+
+def dialect_supports(dialect, feature):
+    """does this dialect's own sqlfluff grammar know the core feature (natural_join, using_join)? Asked of sqlfluff with a probe statement:
+    where the keyword is unknown the grammar silently parses it as a table alias, i.e. accepts the text with another meaning."""
+    k = (dialect, feature)
+    if k in _SUPPORT:
+        return _SUPPORT[k]
+    if dialect == "non-validating":
+        _SUPPORT[k] = True
+        return True
+    from sqlfluff.core import FluffConfig, Linter, SQLLexError, SQLParseError
+
+    probe = {"natural_join": "select ta.x from ta natural join tb", "using_join": "select ta.x from ta inner join tb using (k_1)"}[feature]
+    ok = False
+    try:
+        parsed = Linter(config=FluffConfig(overrides={"dialect": dialect})).parse_string(probe)
+        bad = [v for v in parsed.violations if isinstance(v, (SQLLexError, SQLParseError))]
+        if not bad and parsed.tree is not None:
+            aliases = [seg.raw.lower() for seg in parsed.tree.recursive_crawl("alias_expression")]
+            ok = not aliases
+    except Exception:
+        ok = False
+    _SUPPORT[k] = ok
+    return ok
+
+
+def is_core_for(dialect, tags):
+    """a generated statement is 'core SQL' for a dialect only if the dialect's grammar knows every join form it uses"""
+    t = set(tags)
+    if "join.natural" in t and not dialect_supports(dialect, "natural_join"):
+        return False
+    if "join.cond_using" in t and not dialect_supports(dialect, "using_join"):
+        return False
+    return True
